@@ -62,6 +62,8 @@ type Query struct {
 	Facts bool
 	// InitFacts seeds the fact state (key -> constant it equals).
 	InitEq map[string]constant.Value
+	// InitNeq seeds "key != constant" facts (constants in ExactString form).
+	InitNeq map[string][]string
 	// Deep > 0 makes the search interprocedural: static calls of module functions are entered (at most Deep
 	// frames, no recursion) and left again through their returns; the constant boolean / nil-or-error result of
 	// the path taken through the callee decides the caller's branches on that result.
@@ -395,6 +397,12 @@ func (q *Query) Search(from Point) []Point {
 	st := &factState{eq: map[string]string{}, neq: map[string]map[string]bool{}, rets: map[string]string{}}
 	for k, v := range q.InitEq {
 		st.eq[k] = v.ExactString()
+	}
+	for k, vs := range q.InitNeq {
+		st.neq[k] = map[string]bool{}
+		for _, v := range vs {
+			st.neq[k][v] = true
+		}
 	}
 	visited := map[string]bool{}
 	stack := []*searchNode{{pt: from, st: st}}
